@@ -30,7 +30,9 @@ def manifest(root, pkg):
         for f in sorted(os.listdir(mdir)):
             if f.endswith(".py") and f != "__init__.py":
                 for cls in [c for c in pkgcheck.parse(os.path.join(mdir, f)).body if isinstance(c, ast.ClassDef)]:
-                    models[cls.name] = sorted(f"{x.target.id}: {ast.unparse(x.annotation)}" for x in cls.body if isinstance(x, ast.AnnAssign) and isinstance(x.target, ast.Name))
+                    # a field is its name, its annotation and its default (a default that differs between two runs is a different field)
+                    models[cls.name] = sorted(f"{x.target.id}: {ast.unparse(x.annotation)}" + (f" = {ast.unparse(x.value)}" if x.value is not None else "")
+                                              for x in cls.body if isinstance(x, ast.AnnAssign) and isinstance(x.target, ast.Name))
     edir = os.path.join(base, "endpoints")
     if os.path.isdir(edir):
         for f in sorted(os.listdir(edir)):
@@ -109,7 +111,24 @@ def _local_docs():
             "D": {"oneOf": [{"$ref": S + "A"}, {"$ref": S + "C"}]},
         }},
     }
-    return {"local:shared-component-parameters": shared, "local:acyclic-graph": acyclic}
+    # several referrers of ONE schema, each with its own annotations next to the `$ref` (3.1 style siblings: default / description / example / nullable):
+    # whatever the generator does with such siblings, it must not depend on which referrer is parsed last
+    siblings = {
+        "openapi": "3.0.3", "info": {"title": "siblings", "version": "1"},
+        "paths": {"/o": {"get": {"operationId": "getOrder", "tags": ["o"], "responses": {"200": {"description": "o", "content": {"application/json": {"schema": {"$ref": S + "Order"}}}},
+                                                                                       "201": {"description": "i", "content": {"application/json": {"schema": {"$ref": S + "Invoice"}}}}}}}},
+        "components": {"schemas": {
+            "Status": {"type": "string", "enum": ["draft", "new", "paid"], "description": "shared status"},
+            "Money": {"type": "object", "properties": {"amount": {"type": "integer", "default": 0}, "currency": {"type": "string"}}},
+            "Order": {"type": "object", "properties": {"status": {"$ref": S + "Status", "default": "draft", "description": "order status"},
+                                                        "total": {"$ref": S + "Money", "description": "order total", "nullable": True},
+                                                        "zeta": {"$ref": S + "Status", "default": "paid", "example": "paid"}}},
+            "Invoice": {"type": "object", "properties": {"status": {"$ref": S + "Status", "default": "new", "description": "invoice status"},
+                                                          "total": {"$ref": S + "Money", "description": "invoice total"}}},
+            "Archive": {"type": "object", "properties": {"alpha": {"$ref": S + "Status", "default": "new"}, "last": {"$ref": S + "Status"}}},
+        }},
+    }
+    return {"local:shared-component-parameters": shared, "local:acyclic-graph": acyclic, "local:ref-siblings": siblings}
 
 
 def bounded_renderings_and_orders(tier, seed):
